@@ -658,6 +658,7 @@ def deep_recursion(ctx, h, exe, d, maxs, inits, rng):
                 depths |= {k_for(L) - 1, k_for(L)}
             L *= 2
         depths |= {kmax - 2, kmax - 1, kmax, kmax + 1, 2 * kmax, 3 * maxs}
+        depths.add(kmax - ceil_div(SLACK + 8, per) - 1)     # the deepest depth that is judged by the SPEC alone
         khalf = k_for(L // 2)                         # L/2 = the last doubling below the maximum
         for fr in ((0.1, 0.5, 0.9) if fi == 0 else (0.5,)):
             depths.add(int(khalf + fr * (kmax - khalf)))
